@@ -499,7 +499,7 @@ async fn stress(pairs: &[Pair]) -> (Vec<String>, u64, u64) {
 pub fn meta() -> CheckMeta {
     CheckMeta {
         level: "fault_enumeration",
-        rule: "on-disk fault states of the certificate/key files driven against the real CertReloader (rcgen pairs A, B, C and an expired E): two-file updates with a reload between every pair of writes in both orders, each file replaced alone by another pair's file / garbage / empty / missing / the other kind of file, truncation prefixes of the new certificate and of the new key (quick: 64+32 evenly spaced cuts plus both sides of every line boundary and the last bytes; thorough: every byte) with a reload at each, random 20-200 step sequences, check_expiry on/off; thorough adds a thread rewriting both files while reloads run. After EVERY step an in-memory TLS handshake against get_acceptor() records the presented leaf; oracle: reload() is Ok iff the files hold a complete, matching (and, with check_expiry, unexpired) pair as known by construction; after Err the presented leaf, cert info, last-reload instant and reload count are unchanged; after Ok the leaf is the pair on disk; a TLS connection established at the start answers a ping after every step. distinct_nontrivial = distinct step sequences.".into(),
+        rule: "on-disk fault states of the certificate/key files driven against the real CertReloader (rcgen pairs A, B, C and an expired E): two-file updates with a reload between every pair of writes in both orders, each file replaced alone by another pair's file / garbage / empty / missing / the other kind of file, truncation prefixes of the new certificate and of the new key (quick: 64+32 evenly spaced cuts plus both sides of every line boundary and the last bytes; thorough: every byte) with a reload at each, random 20-200 step sequences, check_expiry on/off; thorough adds a thread rewriting both files while reloads run. After EVERY step an in-memory TLS handshake against get_acceptor() records the presented leaf; oracle: reload() is Ok iff the files hold a complete, matching (and, with check_expiry, unexpired) pair as known by construction; after Err the presented leaf, cert info, last-reload instant and reload count are unchanged; after Ok the leaf is the pair on disk; a TLS connection established at the start answers a ping after every step. distinct_nontrivial = distinct step sequences. For the hand-written update sequences and every third other one a real Server::new_with_reloadable_tls(..).listen() loop runs on the same reloader: after every step the next connection it accepts (loopback TCP + TLS) must present the active pair.".into(),
         assumptions: vec!["a file counts as complete when the whole PEM block is present (a missing final newline does not matter)".into(), "rcgen/rustls generate and verify the pairs".into()],
         floors: vec![("reloads_succeeded", 50), ("reloads_failed_as_they_must", 150), ("handshakes_inspected", 500), ("listener_handshakes_inspected", 300)],
         exhaustive: false,
